@@ -1,5 +1,6 @@
 import RulesModel.Generated.LexerATN
 import RulesModel.Generated.Grammar
+import RulesModel.Proofs.LexChar
 /-!
 # The shipped lexer tables accept the token languages of the grammar – as a theorem
 
@@ -31,7 +32,7 @@ theorem tables_checked : atnRowsOK Generated.lexerRules Generated.lexerAtnRules 
 theorem atnRows_get : ∀ (krs : List (Kind × Regex)) (rows : List (Nat × Nat × Nat × List (Nat × Nat))),
     atnRowsOK krs rows = true → krs.length = rows.length ∧
     ∀ i (h1 : i < krs.length) (h2 : i < rows.length), atnRowOK krs[i] rows[i] = true
-  | [], [], _ => ⟨rfl, fun i h1 _ => absurd h1 (Nat.not_lt_zero _)⟩
+  | [], [], _ => ⟨rfl, fun _ h1 _ => absurd h1 (Nat.not_lt_zero _)⟩
   | kr :: krs, row :: rows, h => by
     simp only [atnRowsOK, Bool.and_eq_true] at h
     obtain ⟨hl, hg⟩ := atnRows_get krs rows h.2
@@ -60,4 +61,53 @@ theorem lexer_atn_language :
 
 /-- non-vacuity: there are token rules, and the string rule's tables accept an escaped literal and reject an open one -/
 example : Generated.lexerAtnRules.length = 30 := by decide
+end Rules.Tie
+
+namespace Rules.Tie
+open Rules Rules.NFA Rules.Regex
+
+/-- "the shipped tables accept `w` for token rule `i`" -/
+def TablesAccept (i : Nat) (w : List Char) : Prop :=
+  ∃ h2 : i < Generated.lexerAtnRules.length,
+    Lang (atnM Generated.lexerAtnData (Generated.lexerAtnRules[i]).2.2.1) ((Generated.lexerAtnRules[i]).2.1, []) w
+
+theorem tablesAccept_iff (i : Nat) (h1 : i < Generated.lexerRules.length) (w : List Char) :
+    TablesAccept i w ↔ Matches (Generated.lexerRules[i]).2 w := by
+  obtain ⟨hl, hg⟩ := lexer_atn_language
+  have h2 : i < Generated.lexerAtnRules.length := hl ▸ h1
+  constructor
+  · rintro ⟨h2', h⟩; exact ((hg i h1 h2' w).2).1 h
+  · intro h; exact ⟨h2, ((hg i h1 h2 w).2).2 h⟩
+
+/-- **The token the model's lexer takes, stated on the shipped tables.** When the maximal-munch lexer of the model takes
+a token of kind `k` and length `n` at the front of `s`, then for the *tables of `jsonquery_lexer.go`*: some token rule `i`
+with token type `k` accepts the prefix of length `n`, no token rule accepts a longer prefix, and no rule listed before `i`
+accepts that prefix – the longest-match / first-rule choice of the ANTLR lexer. -/
+theorem model_token_on_tables (s : List Char) (k : Kind) (n : Nat)
+    (h : bestMatch Generated.lexerRules s = some (k, n)) :
+    0 < n ∧ ∃ i, ∃ h2 : i < Generated.lexerAtnRules.length, (Generated.lexerAtnRules[i]).1 = k ∧ TablesAccept i (s.take n) ∧
+      (∀ j m, n < m → m ≤ s.length → ¬ TablesAccept j (s.take m)) ∧
+      (∀ j, j < i → ¬ TablesAccept j (s.take n)) := by
+  obtain ⟨hl, hg⟩ := lexer_atn_language
+  obtain ⟨hpos, i, hi, e1, e2, e3, _⟩ := bestMatch_first_max _ s k n h
+  obtain ⟨i', hi', e1', hm, hfirst⟩ := C20_priority _ s k n h
+  have h2' : i' < Generated.lexerAtnRules.length := hl ▸ hi'
+  refine ⟨hpos, i', h2', ?_, (tablesAccept_iff i' hi' _).2 hm, ?_, ?_⟩
+  · rw [← (hg i' hi' h2' []).1]; exact e1'
+  · intro j m hnm hms hacc
+    have hj2 := hacc.1
+    have hj : j < Generated.lexerRules.length := hl ▸ hj2
+    have hmj := (tablesAccept_iff j hj _).1 hacc
+    have hsj := longest_spec (Generated.lexerRules[j]).2 s
+    cases hlj : longest (Generated.lexerRules[j]).2 s with
+    | none => rw [hlj] at hsj; exact hsj m hms hmj
+    | some m' =>
+      rw [hlj] at hsj
+      have hle := e3 j hj m' hlj
+      exact hsj.2.2 m (by omega) hms hmj
+  · intro j hji hacc
+    have hj2 := hacc.1
+    have hj : j < Generated.lexerRules.length := hl ▸ hj2
+    exact hfirst j hj hji ((tablesAccept_iff j hj _).1 hacc)
+
 end Rules.Tie
